@@ -92,91 +92,75 @@ Definition post_import (n : node) (s : st) : st :=
   end.
 
 (* ---- the traversal ------------------------------------------------------------------- *)
-(* open recursion: [rec] is [visit] itself.  The boolean says whether the node stands in
-   expression position (visit_mut_expr fires on it) *)
-Definition visit_list_with (rec : bool -> node -> st -> node * st) (lw : bool)
+(* how a node is reached: in expression position (visit_mut_expr fires on it), as a JSX child
+   or attribute value (visited, but lowered by the enclosing element), as a field of a
+   SwitchCase, or as a statement list (visit_mut_stmts) *)
+Inductive mode := MExpr | MNoLower | MSwitch | MStmts.
+
+(* open recursion: [rec] is [visit] itself *)
+Definition visit_list_with (rec : mode -> node -> st -> node * st) (m : mode)
   : list node -> st -> list node * st :=
   fix visit_list (l : list node) (s : st) {struct l} : list node * st :=
     match l with
     | [] => ([], s)
-    | x :: r => let '(x', s) := rec lw x s in
+    | x :: r => let '(x', s) := rec m x s in
                 let '(r', s) := visit_list r s in (x' :: r', s)
     end.
 
 (* JSX children and attributes: nested elements are visited but not lowered here *)
-Definition visit_jsx_list_with (rec : bool -> node -> st -> node * st)
+Definition jsx_item_mode (x : node) : mode :=
+  match x with JsxE _ _ _ _ _ _ | JsxF _ => MNoLower | _ => MExpr end.
+
+Definition visit_jsx_list_with (rec : mode -> node -> st -> node * st)
   : list node -> st -> list node * st :=
   fix visit_jsx_list (l : list node) (s : st) {struct l} : list node * st :=
     match l with
     | [] => ([], s)
-    | x :: r =>
-        let '(x', s) :=
-          match x with
-          | JsxE _ _ _ _ _ _ => rec false x s
-          | JsxF _ => rec false x s
-          | JAttr nm (JsxE _ _ _ _ _ _ as v) => let '(v', s) := rec false v s in (JAttr nm v', s)
-          | JAttr nm (JsxF _ as v) => let '(v', s) := rec false v s in (JAttr nm v', s)
-          | _ => rec true x s
-          end in
-        let '(r', s) := visit_jsx_list r s in (x' :: r', s)
+    | x :: r => let '(x', s) := rec (jsx_item_mode x) x s in
+                let '(r', s) := visit_jsx_list r s in (x' :: r', s)
     end.
 
 (* a Vec<Stmt>: visit_mut_stmts *)
-Definition visit_stmts_with (rec : bool -> node -> st -> node * st) (stmts : list node) (s : st)
+Definition visit_stmts_with (rec : mode -> node -> st -> node * st) (stmts : list node) (s : st)
   : list node * st :=
   let outer := s in
   let s := enter_scope s in
-  let '(stmts', s) := visit_list_with rec true stmts s in
+  let '(stmts', s) := visit_list_with rec MExpr stmts s in
   (pending_decls s ++ stmts', leave_scope outer s).
 
-(* fields of a SwitchCase: `consequent` is a Vec<Stmt> *)
-Definition visit_switch_fields_with (rec : bool -> node -> st -> node * st)
-  : list node -> st -> list node * st :=
-  fix go (l : list node) (s : st) {struct l} : list node * st :=
-    match l with
-    | [] => ([], s)
-    | Field k (NArr stmts) :: r =>
-        let '(stmts', s) :=
-          if sq "consequent" k then visit_stmts_with rec stmts s
-          else visit_list_with rec true stmts s in
-        let '(r', s) := go r s in (Field k (NArr stmts') :: r', s)
-    | x :: r => let '(x', s) := rec true x s in
-                let '(r', s) := go r s in (x' :: r', s)
-    end.
-
-Fixpoint visit (lower : bool) (n : node) (s : st) {struct n} : node * st :=
+Fixpoint visit (m : mode) (n : node) (s : st) {struct n} : node * st :=
   match n with
   | JsxE name attrs sc ta children closing =>
       let '(attrs', s) := visit_jsx_list_with visit attrs s in
       let '(attrs', s) := decouple_attrs attrs' s in
       let '(children', s) := visit_jsx_list_with visit children s in
       let n' := JsxE name attrs' sc ta children' closing in
-      if lower then lower_el E n' s else (n', s)
+      match m with MNoLower => (n', s) | _ => lower_el E n' s end
   | JsxF children =>
       let '(children', s) := visit_jsx_list_with visit children s in
       let n' := JsxF children' in
-      if lower then lower_el E n' s else (n', s)
-  | JAttr nm v => let '(v', s) := visit true v s in (JAttr nm v', s)
-  | JExprC e => let '(e', s) := visit true e s in (JExprC e', s)
-  | JSpreadChild e => let '(e', s) := visit true e s in (JSpreadChild e', s)
+      match m with MNoLower => (n', s) | _ => lower_el E n' s end
+  | JAttr nm v => let '(v', s) := visit (jsx_item_mode v) v s in (JAttr nm v', s)
+  | JExprC e => let '(e', s) := visit MExpr e s in (JExprC e', s)
+  | JSpreadChild e => let '(e', s) := visit MExpr e s in (JSpreadChild e', s)
   | Assign op l r =>
       match l with
       | BIdent sym _ _ _ =>
           let outer := assign_left s in
           let s := set_assign_left (Some sym) s in
-          let '(l', s) := visit true l s in
-          let '(r', s) := visit true r s in
+          let '(l', s) := visit MExpr l s in
+          let '(r', s) := visit MExpr r s in
           (Assign op l' r', set_assign_left outer s)
       | _ =>
-          let '(l', s) := visit true l s in
-          let '(r', s) := visit true r s in
+          let '(l', s) := visit MExpr l s in
+          let '(r', s) := visit MExpr r s in
           (Assign op l' r', s)
       end
   | Arrow c params body a g tp rt =>
-      let '(params', s) := visit_list_with visit true params s in
+      let '(params', s) := visit_list_with visit MExpr params s in
       let outer := s in
       let s := enter_scope s in
-      let '(body', s) := visit true body s in
+      let '(body', s) := visit MExpr body s in
       let body'' :=
         match arrow_decls s with
         | [] => body'
@@ -187,14 +171,15 @@ Fixpoint visit (lower : bool) (n : node) (s : st) {struct n} : node * st :=
   | Block c stmts =>
       let '(stmts', s) := visit_stmts_with visit stmts s in (Block c stmts', s)
   | Call sy c f args ta =>
-      let '(f', s) := visit true f s in
-      let '(args', s) := visit_list_with visit true args s in
+      let '(f', s) := visit MExpr f s in
+      let '(args', s) := visit_list_with visit MExpr args s in
       hook_call (Call sy c f' args' ta) s
   | NObj fields =>
       if sq "SwitchCase" (ntype n) then
-        let '(fields', s) := visit_switch_fields_with visit fields s in (NObj fields', s)
+        (* `consequent` is a Vec<Stmt> *)
+        let '(fields', s) := visit_list_with visit MSwitch fields s in (NObj fields', s)
       else
-        let '(fields', s) := visit_list_with visit true fields s in
+        let '(fields', s) := visit_list_with visit MExpr fields s in
         let n' := NObj fields' in
         let ty := ntype n in
         if sq "ImportDeclaration" ty then (n', post_import n' s)
@@ -202,25 +187,31 @@ Fixpoint visit (lower : bool) (n : node) (s : st) {struct n} : node * st :=
         else if sq "TsInterfaceDeclaration" ty || sq "TsTypeAliasDeclaration" ty
         then (n', hook_ts_decl n' s)
         else (n', s)
-  | NArr l => let '(l', s) := visit_list_with visit true l s in (NArr l', s)
-  | Field k v => let '(v', s) := visit true v s in (Field k v', s)
-  | BIdent sym c o t => let '(t', s) := visit true t s in (BIdent sym c o t', s)
-  | Arr elems => let '(e', s) := visit_list_with visit true elems s in (Arr e', s)
-  | Elem sp e => let '(e', s) := visit true e s in (Elem sp e', s)
-  | Obj props => let '(p', s) := visit_list_with visit true props s in (Obj p', s)
-  | KV k v => let '(k', s) := visit true k s in
-              let '(v', s) := visit true v s in (KV k' v', s)
-  | Computed e => let '(e', s) := visit true e s in (Computed e', s)
-  | Spread e => let '(e', s) := visit true e s in (Spread e', s)
-  | Paren e => let '(e', s) := visit true e s in (Paren e', s)
-  | Cond t c a => let '(t', s) := visit true t s in
-                  let '(c', s) := visit true c s in
-                  let '(a', s) := visit true a s in (Cond t' c' a', s)
-  | Bin op l r => let '(l', s) := visit true l s in
-                  let '(r', s) := visit true r s in (Bin op l' r', s)
-  | Unary op a => let '(a', s) := visit true a s in (Unary op a', s)
-  | Member o p => let '(o', s) := visit true o s in
-                  let '(p', s) := visit true p s in (Member o' p', s)
+  | NArr l =>
+      match m with
+      | MStmts => let '(l', s) := visit_stmts_with visit l s in (NArr l', s)
+      | _ => let '(l', s) := visit_list_with visit MExpr l s in (NArr l', s)
+      end
+  | Field k v =>
+      let m' := match m with MSwitch => if sq "consequent" k then MStmts else MExpr | _ => MExpr end in
+      let '(v', s) := visit m' v s in (Field k v', s)
+  | BIdent sym c o t => let '(t', s) := visit MExpr t s in (BIdent sym c o t', s)
+  | Arr elems => let '(e', s) := visit_list_with visit MExpr elems s in (Arr e', s)
+  | Elem sp e => let '(e', s) := visit MExpr e s in (Elem sp e', s)
+  | Obj props => let '(p', s) := visit_list_with visit MExpr props s in (Obj p', s)
+  | KV k v => let '(k', s) := visit MExpr k s in
+              let '(v', s) := visit MExpr v s in (KV k' v', s)
+  | Computed e => let '(e', s) := visit MExpr e s in (Computed e', s)
+  | Spread e => let '(e', s) := visit MExpr e s in (Spread e', s)
+  | Paren e => let '(e', s) := visit MExpr e s in (Paren e', s)
+  | Cond t c a => let '(t', s) := visit MExpr t s in
+                  let '(c', s) := visit MExpr c s in
+                  let '(a', s) := visit MExpr a s in (Cond t' c' a', s)
+  | Bin op l r => let '(l', s) := visit MExpr l s in
+                  let '(r', s) := visit MExpr r s in (Bin op l' r', s)
+  | Unary op a => let '(a', s) := visit MExpr a s in (Unary op a', s)
+  | Member o p => let '(o', s) := visit MExpr o s in
+                  let '(p', s) := visit MExpr p s in (Member o' p', s)
   | _ => (n, s)
   end.
 
@@ -305,7 +296,7 @@ Definition transform_module (m : node) : node * st :=
   match m with
   | NObj [Field kt ty; Field kb (NArr items); interp] =>
       let s := search_pragmas (e_comments E) st0 in
-      let '(items', s) := visit_list_with visit true items s in
+      let '(items', s) := visit_list_with visit MExpr items s in
       let '(items'', s) := finish_module items' s in
       (NObj [Field kt ty; Field kb (NArr items''); interp], s)
   | _ => (m, st0)
